@@ -113,6 +113,13 @@ static void check_user_invariants(void)
 		else if (u->outpacketq_filled < 0 || u->outpacketq_filled > OUTPACKETQ_LEN) { bad = "outpacketq_filled"; val = u->outpacketq_filled; }
 		else if (u->outpacketq_nexttouse < 0 || u->outpacketq_nexttouse >= OUTPACKETQ_LEN) { bad = "outpacketq_nexttouse"; val = u->outpacketq_nexttouse; }
 		else if (u->inpacket.seqno < 0 || u->inpacket.seqno > 7 || u->outpacket.seqno < 0 || u->outpacket.seqno > 7) { bad = "sequence number"; val = u->inpacket.seqno * 256 + u->outpacket.seqno; }
+		else if (u->qmemping_lastfilled < 0 || u->qmemping_lastfilled >= QMEMPING_LEN) { bad = "qmemping_lastfilled"; val = u->qmemping_lastfilled; }
+		else if (u->qmemdata_lastfilled < 0 || u->qmemdata_lastfilled >= QMEMDATA_LEN) { bad = "qmemdata_lastfilled"; val = u->qmemdata_lastfilled; }
+		else if (u->dnscache_lastfilled < 0 || u->dnscache_lastfilled >= DNSCACHE_LEN) { bad = "dnscache_lastfilled"; val = u->dnscache_lastfilled; }
+		else if (u->fragsize < 0 || u->fragsize > 65535) { bad = "fragsize"; val = u->fragsize; }
+		else if (u->outfragresent < 0 || u->outfragresent > 7) { bad = "outfragresent"; val = u->outfragresent; }
+		else for (int k = 0; k < OUTPACKETQ_LEN && !bad; k++) if (u->outpacketq[k].len < 0 || u->outpacketq[k].len > cap) { bad = "outpacketq[].len"; val = u->outpacketq[k].len; }
+		for (int k = 0; k < DNSCACHE_LEN && !bad; k++) if (u->dnscache_answerlen[k] < 0 || u->dnscache_answerlen[k] > (int)sizeof u->dnscache_answer[k]) { bad = "dnscache_answerlen[]"; val = u->dnscache_answerlen[k]; }
 		if (bad) { viol("session-record-out-of-range", "state '%s': %s of slot %d is %ld after: %s", STATE_DESC[cur_state], bad, i, val, cur_desc); return; }
 	}
 }
